@@ -242,6 +242,7 @@ def run(ctx):
                     r4.fail(f.qualname, f"exclusively:{norm_text(n)}", f.file, n.lineno, f.name, f"{norm_text(n)} does not select elements exclusively: a node set touching an element only partially would load it")
 
     beam_lineload_rule(ctx)
+    selection_rules(ctx)
 
     # ---- R9.5 point load
     r5 = ctx.rule("R9.5", "a concentrated load distributes its total over the selected nodes (divided by len(nodes) exactly once)", min_instances=1)
@@ -296,3 +297,44 @@ def run(ctx):
             r6.ok(f"dim {dim}: values[k] = normal[:, k] * magnitude{' * thickness' if dim == 2 else ''}, unknowns {['x','y','z'][:dim]}, integration over dimension {dim-1}")
         else:
             r6.fail(fQ.qualname, f"dim{dim}", fQ.file, fQ.lineno, "__Bc_pressureload", f"dim {dim}: integrator called with dim={cap.get('dim')}, unknowns={cap.get('unknowns')}, values not normal_k * magnitude{' * thickness' if dim == 2 else ''}")
+
+
+def selection_rules(ctx):
+    """R9.8: load evaluation hands back fresh arrays and no load API writes into the caller's value / node arrays.
+    R9.9: the element selection consumes the node list through multiplicity-erasing operations only (a node listed
+    twice - the corner of two concatenated edges - selects the same elements)."""
+    from ..flow import CallGraph, alias_closure, multiplicity_sinks, param_inplace, returns_alias
+
+    repo = ctx.repo
+    simu = repo.cls("EasyFEA.Simulations._simu._Simu")
+    cg = CallGraph(repo)
+    r8 = ctx.rule("R9.8", "caller data are read-only for the load API: __Bc_evaluate returns a fresh array (never an alias of the values it was given), and no add_* / integrator function writes its `values` / `nodes` arguments in place", min_instances=6)
+    fe = simu.methods["__Bc_evaluate"]
+    r8.instance(fn=fe.qualname)
+    ps = [p for p in fe.params() if p != "self"]
+    leaks = [p for p in ps if returns_alias(fe.node, alias_closure(fe.node, {p}))]
+    if leaks:
+        r8.fail(fe.qualname, "returns-alias", fe.file, fe.lineno, "__Bc_evaluate", f"the evaluated load can be (a view of) the caller's `{leaks[0]}`: the integrators scale it in place (e.g. the point load divides by the number of nodes), so the user's array shrinks on every use")
+    else:
+        r8.ok("__Bc_evaluate returns the freshly allocated array")
+    for nm in ("add_dirichlet", "add_neumann", "add_lineLoad", "add_surfLoad", "add_volumeLoad", "add_pressureLoad"):
+        f = simu.methods.get(nm)
+        if f is None:
+            continue
+        r8.instance(fn=f.qualname)
+        sinks = param_inplace(cg, f, {p for p in f.params() if p in ("values", "nodes")}, depth=5)
+        if sinks:
+            g, node, desc = sinks[0]
+            r8.fail(f.qualname, f"writes-caller-data:{g.name}", g.file, node.lineno, nm, f"{nm} reaches {g.name}, which writes the caller's array in place ({desc})")
+        else:
+            r8.ok(f"{nm}: values / nodes are only read")
+    r9 = ctx.rule("R9.9", "node selections are sets: Get_Elements_Nodes consumes its node list only through multiplicity-erasing operations (set, unique, isin, masks), never through a count (sum, len, size, bincount)", min_instances=1)
+    ge = repo.cls("EasyFEA.FEM._group_elem._GroupElem")
+    f = ge.methods["Get_Elements_Nodes"]
+    r9.instance(fn=f.qualname)
+    sinks = multiplicity_sinks(f.node, {"nodes"})
+    if sinks:
+        node, desc = sinks[0]
+        r9.fail(f.qualname, "counts-duplicates", f.file, node.lineno, "Get_Elements_Nodes", f"`{norm_text(node)[:80]}`: {desc} of a value that keeps one entry per entry of `nodes`: a node listed twice (corner shared by two concatenated edge selections) changes which elements are selected, and the loads on them are lost")
+    else:
+        r9.ok("Get_Elements_Nodes: the node list reaches the result through set / nonzero->set / mask operations only")
